@@ -258,6 +258,18 @@ def c06_case(ctx: Ctx, case: dict):
                 gv = exact.get(f"__g_{d}")
                 guard = "guarded" if re.search(rf"values\[{slots[name]}\] = .*where", b.code) else "unguarded"
                 branch = "euler-branch" if gv is not None and abs(gv) <= common.mpf(delta) else "rl-branch"
+                # is the rate itself already not a number in the module's own rhs?  Then the step inherits it and the scheme
+                # is not the cause (recorded finding: sympy pulls a 0/1 factor out of sqrt(...), sqrt(Ge(a, b)*x) -> sqrt(x)*[a >= b])
+                try:
+                    with np.errstate(all="ignore"):
+                        r_own = np.asarray(oracle.call_py(b.mod.rhs, "tsp", states=s, t=pt["t"], parameters=p, missing=mv), dtype=float)
+                    rate_nan = bool(np.isnan(got)) and bool(np.isnan(r_own[slots[name]]))
+                except Exception:
+                    rate_nan = False
+                if rate_nan:
+                    ctx.violate("C06/numpy/value/rate-not-a-number", f"generalized_rush_larsen slot {slots[name]} ({sn}) = nan because the module's own rhs is nan there; "
+                                f"the model text defines a finite rate (step {oracle.fmt(ref)})", case={**case, "points": [pt]})
+                    continue
                 ctx.violate(f"C06/numpy/value/{branch}/{guard}",
                             f"generalized_rush_larsen slot {slots[name]} ({sn}) = {oracle.fmt(got)} but the guarded exponential formula gives {oracle.fmt(ref)} "
                             f"(g = {oracle.fmt(gv) if gv is not None else 'identically 0'}, delta = {delta}, dt = {pt['dt']})",
@@ -338,7 +350,9 @@ def c07_case(ctx: Ctx, case: dict):
             ctx.count("prefix_pair_cases")
         if ctx.rng.random() < 0.3:
             stiff.append(ctx.rng.choice(["not_a_state", states[0] + "_x", states[0][:-1] or "q", "d" + states[0] + "_dt"]))
-    delta = case.get("delta", 1e-8)
+    # the tolerance is an option of the hybrid scheme too: every second case uses a non-default one
+    delta = case["delta"] if "delta" in case else ctx.rng.choice([1e-8, 1e-8, 0.5, 1e-3, 2.0])
+    case = {**case, "delta": delta}
     schemes = [Scheme.explicit_euler, Scheme.generalized_rush_larsen, Scheme.hybrid_rush_larsen]
     b = oracle.build_py(ctx, text, "C07", rm=rm, ode=b0.ode, on_codegen_error="skip", scheme=schemes, stiff_states=stiff, delta=delta)
     if b is None:
